@@ -69,7 +69,7 @@ fn run_one(exe_rtbp: &Path, c: &Cfg, r: &mut Report) {
         let e = platform.join("env");
         fs::create_dir_all(e.join("subdir")).unwrap();
         fs::write(e.join("subdir/INNER"), b"ignored").unwrap();
-        for (k, v) in [("A", "1"), ("EMPTY", ""), ("MULTI", "a\nb\n"), ("SP ACE", " padded "), ("UNICODE_é", "vä\u{1F600}")] {
+        for (k, v) in [("A", "1"), ("EMPTY", ""), ("MULTI", "a\nb\n"), ("SP ACE", " padded "), ("UNICODE_é", "vä\u{1F600}"), ("DOTTED.NAME", "d"), ("COLLIDE.a", "a"), ("COLLIDE.b", "b"), ("TRAILING.", "t"), (".hidden", "h")] {
             fs::write(e.join(k), v).unwrap();
             expected_env.push((hex(k.as_bytes()), hex(v.as_bytes())));
         }
@@ -191,7 +191,7 @@ fn run_one(exe_rtbp: &Path, c: &Cfg, r: &mut Report) {
 
 pub fn runtime(thorough: bool) -> Report {
     let mut r = Report::new(
-        "the real libcnb_runtime in a child process (symlinked as detect/build/other): executable name x argument count {ok,-1,+1} x buildpack.toml {supported, unsupported api, malformed, missing, CNB_BUILDPACK_DIR unset} (gate); each CNB_TARGET_* variable unset; detect behaviour {pass, pass+plan, fail, error} x pre-existing plan file x platform env {missing dir, files incl. empty/newlines/space/unicode names, symlink to file, sub-directory, symlink to directory}; build {error, pass with subsets of launch/store x build-SBOM sets (incl. a format given twice) x launch-SBOM sets} x pre-existing outputs x store.toml {absent, valid nested, malformed, dangling symlink, non-UTF-8, a directory, a symlink loop} x plan file {ok, missing, non-UTF-8}: exit status, call-back log, context dump and a byte-exact before/after snapshot against the decision table; non-trivial = any non-default dimension",
+        "the real libcnb_runtime in a child process (symlinked as detect/build/other): executable name x argument count {ok,-1,+1} x buildpack.toml {supported, unsupported api, malformed, missing, CNB_BUILDPACK_DIR unset} (gate); each CNB_TARGET_* variable unset; detect behaviour {pass, pass+plan, fail, error} x pre-existing plan file x platform env {missing dir, files incl. empty/newlines/space/unicode/dotted names, symlink to file, sub-directory, symlink to directory}; build {error, pass with subsets of launch/store x build-SBOM sets (incl. a format given twice) x launch-SBOM sets} x pre-existing outputs x store.toml {absent, valid nested, malformed, dangling symlink, non-UTF-8, a directory, a symlink loop} x plan file {ok, missing, non-UTF-8}: exit status, call-back log, context dump and a byte-exact before/after snapshot against the decision table; non-trivial = any non-default dimension",
         if thorough { "gate 3x3x5 x behaviours; full products of the dimensions listed" } else { "gate 3x3x5; the other dimensions varied one or two at a time (see rule)" },
     );
     let exe = std::env::current_exe().unwrap().parent().unwrap().join("rtbp");
